@@ -403,7 +403,9 @@ func sDirected() []SCase {
 		[]any{map[string]any{"a": 1.0, "b": 2.0}, map[string]any{"b": 2.0, "a": 1.0}})
 	au := T("array")
 	au.Unique = true
-	add(au, []any{0.0, negZero()}, []any{[]any{1.0}, []any{1.0}}, []any{map[string]any{"a": 1.0}, map[string]any{"a": 1.0}}, []any{"a", "a"}, []any{nil, nil}, []any{1.0, "1"})
+	add(au, []any{0.0, negZero()}, []any{[]any{1.0}, []any{1.0}}, []any{map[string]any{"a": 1.0}, map[string]any{"a": 1.0}}, []any{"a", "a"}, []any{nil, nil}, []any{1.0, "1"},
+		[]any{"[1]", []any{1.0}}, []any{map[string]any{"a": 1.0}, `{"a":1}`}, []any{"null", nil}, []any{true, "true"}, []any{`"a"`, "a"}, []any{"1", 1.0, "1.0"},
+		[]any{[]any{"1"}, []any{1.0}}, []any{map[string]any{"a": "1"}, map[string]any{"a": 1.0}})
 	ob := T("object")
 	ob.Props = map[string]*GSchema{"a": T("string"), "b": T("integer")}
 	ob.Required = []string{"a"}
